@@ -1,9 +1,10 @@
 (* C01 -- Conforming data is accepted by every check mode (no false alarms).  Property theorems only.
-   Proved tier: the RDH level (check sanity / check all without a target) for EVERY stream the grammar renders.
-   The ITS payload and stave tiers are decided by the correspondence of the whole-run model and by the local acceptance theorems of
-   C09, C11, C12, C13 (see DESIGN.md, C01); the composed invariant proof for those tiers is not part of this file. *)
+   Proved tiers: the RDH level (check sanity / check all without a target) and the ITS level (check sanity its / check all its)
+   for EVERY stream the grammars render (Spec/Grammar.v, Spec/GrammarIts.v; calibration data words are outside the word-level
+   grammar).  The stave tier (check all its-stave) is decided by the correspondence of the whole-run model and by the local
+   acceptance theorems of C13 (see DESIGN.md, C01); the composed invariant proof for that tier is not part of this file. *)
 From Coq Require Import List NArith Bool.
-From FP Require Import Model.Base Model.Rdh Model.RdhChecks Model.CdpRunning Model.Scanner Model.Link Spec.Grammar Proofs.C01_rdh.
+From FP Require Import Model.Base Model.Rdh Model.RdhChecks Model.CdpRunning Model.Scanner Model.Link Spec.Grammar Spec.GrammarIts Spec.GrammarItsCheck Proofs.C01_rdh Proofs.C01_its Proofs.C01_check.
 From FP Require Gen.Facts.
 Import ListNotations.
 Open Scope N_scope.
@@ -30,7 +31,30 @@ Theorem C01_nonvacuous :
   wf_link_rdh ld = true /\ length (render_link ld) = 6%nat.
 Proof. exact c01_rdh_example. Qed.
 
+(* the ITS tier: every link whose pages carry payloads of the word-level producer grammar -- IHW, trigger packets (TDH, data words of
+   active lanes, TDT), no-data TDHs, packets continued over any number of pages (TDT packet_done = 0 / IHW / TDH continuation), DDW0 on
+   the stop page, either data format, 0..15 bytes of padding -- draws no message from `check sanity its` or `check all its` *)
+Theorem C01_its_tier : forall ld ihs running ps, wf_link_its ld ihs -> map strip ps = render_link ld ->
+  run_validator (its_cfg running) ps = Ok [].
+Proof. exact c01_its_link. Qed.
+
+(* the same, through the executable membership test that the check runs on every generated link (extracted) *)
+Theorem C01_its_tier_checked : forall ld ihs running ps, link_witness ld = Some ihs -> map strip ps = render_link ld ->
+  run_validator (its_cfg running) ps = Ok [].
+Proof. exact (fun ld ihs running ps H => c01_its_link ld ihs running ps (link_witness_sound ld ihs H)). Qed.
+Theorem C01_membership_test_sound : forall ld ihs, link_witness ld = Some ihs -> wf_link_its ld ihs.
+Proof. exact link_witness_sound. Qed.
+Theorem C01_membership_test_nonvacuous : link_witness Example.ld = Some [Example.ih 10; Example.ih 11].
+Proof. vm_compute. reflexivity. Qed.
+
+Theorem C01_its_nonvacuous : wf_link_its Example.ld [Example.ih 10; Example.ih 11] /\ length (render_link Example.ld) = 8%nat.
+Proof. exact Example.example_wf. Qed.
+
 Print Assumptions C01_rdh_tier.
+Print Assumptions C01_its_tier.
+Print Assumptions C01_its_nonvacuous.
+Print Assumptions C01_its_tier_checked.
+Print Assumptions C01_membership_test_nonvacuous.
 Print Assumptions C01_rendered_rdh_is_sane.
 Print Assumptions C01_rendered_page_keeps_running_invariant.
 Print Assumptions C01_nonvacuous.
